@@ -59,6 +59,8 @@ def run_point(pt):
             from nucs.problems.problem import Problem
             from nucs.propagators.propagators import ALG_AFFINE_LEQ, ALG_ALLDIFFERENT, ALG_RELATION
 
+            kw_solver = {}
+            valid = lambda x: True
             if heur == "propagators":
                 p = Problem([(0, 1), (0, 1)])
                 for i in range(n):
@@ -83,9 +85,43 @@ def run_point(pt):
                 tuples = [0, 1] * (n // 2)
                 p.add_propagator(([0, 1], ALG_RELATION, tuples))
                 exp = 1
-            solver = BacktrackSolver(p, log_level="ERROR")
-            cnt = sum(1 for _ in solver.solve())
-            out["outcome"] = "correct" if cnt == exp else f"wrong:{cnt}-of-{exp}"
+            elif heur == "slots1":
+                # n propagator-variable slots made of arity-1 propagators (a one-element array broadcasts into an empty slice,
+                # so a wrapped 16-bit offset is not refused by accident) + one binary constraint
+                p = Problem([(0, 1), (0, 1)])
+                for i in range(n - 2):
+                    p.add_propagator(([i % 2], ALG_ALLDIFFERENT, []))
+                p.add_propagator(([0, 1], ALG_AFFINE_LEQ, [1, -1, 0]))
+                exp = 3
+                valid = lambda x: x[0] <= x[1]
+            elif heur == "parameters1":
+                # n parameters made of one-parameter propagators + one binary constraint with 3 parameters
+                from nucs.propagators.propagators import ALG_EXACTLY_TRUE
+                p = Problem([(0, 1), (0, 1), (1, 1)])
+                for i in range(n - 3):
+                    p.add_propagator(([2], ALG_EXACTLY_TRUE, [1]))
+                p.add_propagator(([0, 1], ALG_AFFINE_LEQ, [1, -1, 0]))
+                exp = 3
+                valid = lambda x: x[0] <= x[1] and x[2] == 1
+            elif heur == "domains-explicit-decision":
+                # n shared domains, the last one bound and used by a constraint, explicit decision domains [0, 1]
+                from nucs.propagators.propagators import ALG_AFFINE_EQ
+                p = Problem([(0, 5), (0, 5)] + [0] * (n - 3) + [7])
+                p.add_propagator(([1, n - 1], ALG_AFFINE_EQ, [1, 1, 9]))
+                kw_solver = {"decision_domains": [0, 1]}
+                exp = 6
+                valid = lambda x: x[1] == 2 and x[n - 1] == 7 and 0 <= x[0] <= 5
+            elif heur == "views":
+                # n variables that are views of two shared domains; the constraint uses the last variable
+                p = Problem([(0, 1), (0, 1)], [0, 1] + [0] * (n - 2), [0] * n)
+                p.add_propagator(([1, n - 1], ALG_AFFINE_LEQ, [1, -1, 0]))
+                exp = 3
+                valid = lambda x: x[1] <= x[n - 1] and x[n - 1] == x[0]
+            solver = BacktrackSolver(p, log_level="ERROR", **kw_solver)
+            sols = [[int(v) for v in x] for x in solver.solve()]
+            cnt = len(sols)
+            bad = sum(1 for x in sols if not valid(x))
+            out["outcome"] = "correct" if cnt == exp and not bad else f"wrong:{cnt}-of-{exp}" + (f"-{bad}-invalid" if bad else "")
     except IndexError as e:
         out["outcome"] = "IndexError"
         out["detail"] = str(e)[:120]
